@@ -430,8 +430,30 @@ pub fn strategy() -> impl Strategy<Value = Case> {
             }
             b
         });
+    // record heads: marker + 12 storage bytes (blank / filled) + 4 bytes where the standard header would be (blank / a
+    // valid header start / arbitrary), a few of them with filler between: unwritten, half-written and written records
+    let heads = vec(
+        (
+            vec(prop::sample::select(vec![0u8, b'x', 9]), 0..6),
+            prop_oneof![Just(vec![0u8; 12]), vec(any::<u8>(), 12), Just(b"\x01\x02\x03\x04\x05\x06\x07\x08ECU1".to_vec())],
+            prop_oneof![Just(vec![0u8; 4]), Just(vec![0x21u8, 1, 0, 14]), vec(any::<u8>(), 4), Just(vec![])],
+            vec(any::<u8>(), 0..12),
+        ),
+        1..4,
+    )
+    .prop_map(|hs| {
+        let mut b = vec![];
+        for (lead, st, std, fill) in hs {
+            b.extend(lead);
+            b.extend_from_slice(b"DLT\x01");
+            b.extend(st);
+            b.extend(std);
+            b.extend(fill);
+        }
+        b
+    });
     prop_oneof![
-        300 => prop_oneof![vec(any::<u8>(), 0..80), vec(prop::sample::select(vec![b'D', b'L', b'T', 1u8]), 0..24), planted].prop_map(Case::Search),
+        300 => prop_oneof![vec(any::<u8>(), 0..80), vec(prop::sample::select(vec![b'D', b'L', b'T', 1u8]), 0..24), planted, heads].prop_map(Case::Search),
         150 => (any::<u64>(), 0usize..70_000, 1u8..6, any::<u16>()).prop_map(|(s, l, a, p)| {
             let mut b = expand_bytes(s, l, a);
             let k = (p as usize * (b.len() + 1)) >> 16;
@@ -463,7 +485,7 @@ pub fn strategy() -> impl Strategy<Value = Case> {
                 }
                 Case::Parse { junk, msg, suffix, filter }
             }),
-        300 => (vec(stored(), 1..6), vec(junk(), 7), fidx()).prop_map(|(msgs, mut junks, filter)| {
+        300 => (prop_oneof![2 => vec(stored(), 1..6), 1 => vec(g::message(g::MsgParams { storage: g::StorageMode::Always, large: false, pool_ids: true, ..Default::default() }), 1..6)], vec(junk(), 7), fidx()).prop_map(|(msgs, mut junks, filter)| {
             // sometimes records are doubled (identical neighbours with no junk between them)
             let mut out = vec![];
             let mut j2 = vec![junks[0].clone()];
